@@ -56,7 +56,8 @@ vars == <<schema, data, file2>>
 \* all schemas, or all but one (so that data is no longer implied by it)
 Init ==
   /\ schema \in {1..NS} \cup {(1..NS) \ {1, 2}}                               \* x: #D needs #D
-                 \cup (IF AllVariants THEN {(1..NS) \ {i} : i \in 2..NS} ELSE {(1..NS) \ {7}})
+                 \* (12, 13 are referenced by the comprehension 14: they are not dropped on their own)
+                 \cup (IF AllVariants THEN {(1..NS) \ {i} : i \in (2..NS) \ {12, 13}} \cup {(1..NS) \ {12, 13, 14}} ELSE {(1..NS) \ {7}})
   /\ data \in {S \in SUBSET (1..ND) : Cardinality(S) <= MaxData /\ S # {}}
   /\ file2 \in {{}, data}                  \* data in the same file as the schemas, or in a second file
 Next == UNCHANGED vars
